@@ -266,3 +266,155 @@ theorem chain_to_mono (fs : List Filter) : ∀ ts : List Token,
     exact ih _ (apply_key_mono f (fun t => t.to) (fun t t' ht' => (onToken_offsets f t t' ht').2.1) ts h)
 
 end TantivyModel.Tok
+
+namespace TantivyModel.Snip
+open TantivyModel.Tok
+
+/-- from fragments whose highlights end before the stop offset to the rendered snippet -/
+theorem snippet_inside (s : Text) (M : Nat) (ts : List STok) (frags : List Frag)
+    (e : searchFragments M ts = some frags)
+    (hf : ∀ g ∈ frags, FI s g ∧ ∀ h ∈ g.hl, h.2 ≤ g.stop) :
+    ∃ sn, snippet s M ts = some sn ∧
+      (∀ h ∈ sn.hl, h.1 ≤ h.2 ∧ h.2 ≤ byteLen sn.fragment ∧
+        IsBoundary sn.fragment h.1 ∧ IsBoundary sn.fragment h.2) ∧
+      ∃ out, toHtml sn = some out := by
+  have fin : ∀ sn : Snippet, (∀ h ∈ sn.hl, h.1 ≤ h.2 ∧ h.2 ≤ byteLen sn.fragment ∧
+      IsBoundary sn.fragment h.1 ∧ IsBoundary sn.fragment h.2) → ∃ out, toHtml sn = some out := by
+    intro sn hall
+    obtain ⟨c1, c2⟩ := collapse_disjoint sn.hl (fun r hr => (hall r hr).1)
+    apply toHtmlAux_some sn.fragment (collapse sn.hl) 0 (isBoundary_zero _) _ c2
+    intro o ho
+    obtain ⟨⟨a, ha, ea⟩, ⟨b, hb, eb⟩⟩ := collapse_endpoints sn.hl o ho
+    have := c1 o ho
+    exact ⟨Nat.zero_le _, this, by rw [ea]; exact (hall a ha).2.2.1, by rw [eb]; exact (hall b hb).2.2.2⟩
+  simp only [snippet, e]
+  cases hb : selectBest frags with
+  | none => exact ⟨⟨[], []⟩, rfl, by simp, fin _ (by simp)⟩
+  | some f =>
+    obtain ⟨hfi, hin⟩ := hf f (selectBest_mem frags f hb)
+    simp only [mkSnippet_of_FI s f hfi]
+    obtain ⟨f1, f2, f3, f4, f5⟩ := hfi
+    have hall : ∀ h ∈ (f.hl.map fun h => (h.1 - f.start, h.2 - f.start)),
+        h.1 ≤ h.2 ∧ h.2 ≤ byteLen (sliceFrom 0 s f.start f.stop) ∧
+        IsBoundary (sliceFrom 0 s f.start f.stop) h.1 ∧ IsBoundary (sliceFrom 0 s f.start f.stop) h.2 := by
+      intro h hh
+      simp only [List.mem_map] at hh
+      obtain ⟨x, hx, rfl⟩ := hh
+      obtain ⟨q1, q2, q3, q4, q5⟩ := f5 x hx
+      have q6 := hin x hx
+      rw [byteLen_slice (Nat.zero_le _) f3 f4 f1]
+      exact ⟨by simp only; omega, by simp only; omega,
+        isBoundary_slice f3 q4 q1 (by omega), isBoundary_slice f3 q5 (by omega) q6⟩
+    exact ⟨_, rfl, hall, fin _ hall⟩
+
+
+/-! ### end offsets that dip and recover (n-grams): a new record of `offset_to` is always
+immediately preceded by a token that holds the previous record, and the last token holds the
+record. `R` = record so far, `last` = end offset of the previous token. -/
+
+def RecOkN : Nat → Nat → List Nat → Prop
+  | R, last, [] => last = R
+  | R, last, x :: xs => (x > R → last = R) ∧ RecOkN (max R x) x xs
+
+/-- the current fragment while the records are respected and no token is longer than `M` -/
+def P6 (M : Nat) (s : Text) (f : Frag) (ts : List STok) : Prop :=
+  P1 s f ts ∧ (∀ t ∈ ts, t.to - t.from_ ≤ M) ∧
+  ∃ R, RecOkN R f.stop (ts.map (·.to)) ∧ (∀ h ∈ f.hl, h.2 ≤ R) ∧ R ≤ f.start + M
+
+theorem P6_next (M : Nat) (s : Text) (g f : Frag) (t : STok) (ts : List STok) (R : Nat)
+    (hlen : ∀ x ∈ t :: ts, x.to - x.from_ ≤ M)
+    (hrec : RecOkN R f.stop ((t :: ts).map (·.to))) (hg : ∀ h ∈ g.hl, h.2 ≤ max R t.to)
+    (hfit : max R t.to ≤ g.start + M) (h1 : P1 s (g.add t) ts) : P6 M s (g.add t) ts := by
+  refine ⟨h1, fun x hx => hlen x (List.mem_cons_of_mem _ hx), max R t.to, ?_, ?_, ?_⟩
+  · rw [add_stop]
+    simp only [List.map_cons, RecOkN] at hrec
+    exact hrec.2
+  · intro x hx
+    rw [add_hl_eq, List.mem_append] at hx
+    rcases hx with hx | hx
+    · exact hg x hx
+    · split at hx
+      · simp only [List.mem_singleton] at hx; subst hx; simp only; omega
+      · simp at hx
+  · rw [add_start]; exact hfit
+
+theorem search_P6 (s : Text) (M : Nat) (ts : List STok) (h : SContract s ts)
+    (hlen : ∀ t ∈ ts, t.to - t.from_ ≤ M) (hrec : RecOkN 0 0 (ts.map (·.to))) :
+    ∃ frags, searchFragments M ts = some frags ∧
+      ∀ g ∈ frags, FI s g ∧ ∀ h ∈ g.hl, h.2 ≤ g.stop := by
+  obtain ⟨frags, e, hf⟩ := searchAux_inv' M (P6 M s) (fun f t r h => P1_safe s f t r h.1)
+    (fun f t r h hc => by
+      obtain ⟨h1, h2, R, h3, h4, h5⟩ := h
+      have := P1_safe s f t r h1
+      exact P6_next M s f f t r R h2 h3 (fun x hx => by have := h4 x hx; omega) (by omega)
+        (P1_add s f t r h1))
+    (fun f t r h hc => by
+      obtain ⟨h1, h2, R, h3, h4, h5⟩ := h
+      have hl := h2 t List.mem_cons_self
+      have hft := (h1.2.1.inb t List.mem_cons_self).1
+      exact P6_next M s (Frag.new t.from_) f t r R h2 h3 (by simp [Frag.new])
+        (by simp only [Frag.new]; omega) (P1_cut s f t r h1))
+    ts (Frag.new 0) ⟨P1_init s ts h, hlen, 0, hrec, by simp [Frag.new], by simp [Frag.new]⟩
+  refine ⟨frags, e, ?_⟩
+  intro g hg
+  rcases hf g hg with hend | ⟨t, rest, hP, hc⟩
+  · obtain ⟨h1, _, R, h3, h4, _⟩ := hend
+    simp only [List.map_nil, RecOkN] at h3
+    exact ⟨h1.1, fun x hx => by have := h4 x hx; omega⟩
+  · obtain ⟨h1, _, R, h3, h4, h5⟩ := hP
+    simp only [List.map_cons, RecOkN] at h3
+    have := P1_safe s g t rest h1
+    have hlast := h3.1 (by omega)
+    exact ⟨h1.1, fun x hx => by have := h4 x hx; omega⟩
+
+/-- a run of consecutive values satisfies the record discipline once its first element does -/
+theorem recOk_run : ∀ (n a R last : Nat) (rest : List Nat), (a > R → last = R) →
+    RecOkN (max R (a + n)) (a + n) rest → RecOkN R last (List.range' a (n + 1) ++ rest) := by
+  intro n
+  induction n with
+  | zero =>
+    intro a R last rest h1 h2
+    simp only [List.range'_succ, List.range'_zero, List.cons_append, List.nil_append, RecOkN]
+    exact ⟨h1, by simpa using h2⟩
+  | succ n ih =>
+    intro a R last rest h1 h2
+    rw [List.range'_succ, List.cons_append]
+    simp only [RecOkN]
+    refine ⟨h1, ih (a + 1) (max R a) a rest (by omega) ?_⟩
+    have e1 : a + 1 + n = a + (n + 1) := by omega
+    have e2 : max (max R a) (a + (n + 1)) = max R (a + (n + 1)) := by omega
+    rw [e1, e2]; exact h2
+
+/-- the record discipline is invariant under strictly monotone relabelling -/
+theorem recOk_map (f : Nat → Nat) (L : Nat) (hf : ∀ a b, a < L → b < L → (a < b ↔ f a < f b)) :
+    ∀ (xs : List Nat) (R last : Nat), R < L → last < L → (∀ x ∈ xs, x < L) →
+      RecOkN R last xs → RecOkN (f R) (f last) (xs.map f) := by
+  intro xs
+  induction xs with
+  | nil =>
+    intro R last _ _ _ h
+    simp only [RecOkN] at h
+    simp only [List.map_nil, RecOkN]; rw [h]
+  | cons x xs ih =>
+    intro R last hR hl hx h
+    simp only [RecOkN] at h
+    have hxL := hx x List.mem_cons_self
+    simp only [List.map_cons, RecOkN]
+    constructor
+    · intro hgt
+      have : x > R := (hf R x hR hxL).mpr hgt
+      rw [h.1 this]
+    · have hmax : max (f R) (f x) = f (max R x) := by
+        by_cases hc : R < x
+        · have := (hf R x hR hxL).mp hc
+          rw [Nat.max_eq_right (by omega), Nat.max_eq_right (by omega)]
+        · have hle : x ≤ R := by omega
+          rw [Nat.max_eq_left hle]
+          by_cases he : x = R
+          · subst he; simp
+          · have := (hf x R hxL hR).mp (by omega)
+            rw [Nat.max_eq_left (by omega)]
+      rw [hmax]
+      exact ih (max R x) x (by omega) hxL (fun y hy => hx y (List.mem_cons_of_mem _ hy)) h.2
+
+end TantivyModel.Snip
